@@ -247,13 +247,19 @@ func allPositions() []*position {
 				if err != nil {
 					return outcome{} // the PromQL engine would not produce this matcher (invalid regex)
 				}
+				// PromQL regex matchers are fully anchored; qryn renders the anchored pattern
+				// "^(?:" + value + ")$" into match() (reader/promql/transpiler/shared.go matcherValue)
+				want := p
+				if mt == labels.MatchRegexp || mt == labels.MatchNotRegexp {
+					want = "^(?:" + p + ")$"
+				}
 				hints := &storage.SelectHints{Start: fromS * 1000, End: toS * 1000, Step: 1000}
 				if v.Wrap%2 == 1 {
 					hints = &storage.SelectHints{Start: 1699999995000, End: toS * 1000, Step: 30000, Func: "avg_over_time", Range: 300000}
 				}
 				q, err := rd.Prom.SetOidAndDB(context.Background()).Querier(context.Background(), hints.Start, hints.End)
 				if err != nil {
-					return outcome{intended: p, expressible: true, status: 1}
+					return outcome{intended: want, expressible: true, status: 1}
 				}
 				set := q.Select(false, hints, labels.MustNewMatcher(labels.MatchEqual, "__name__", "up"), m)
 				for set.Next() {
@@ -262,7 +268,7 @@ func allPositions() []*position {
 				if set.Err() != nil {
 					st = 1
 				}
-				return outcome{intended: p, expressible: true, status: st}
+				return outcome{intended: want, expressible: true, status: st}
 			}})
 	}
 
